@@ -487,6 +487,22 @@ static ssize_t urandom_read(void* buf, size_t n) {
   if (g_urandom_scripted) {
     int act = g_urandom_script_pos < g_urandom_script.size() ? g_urandom_script[g_urandom_script_pos] : 0;
     g_urandom_script_pos++;
+    if (act == -3) {
+      // Linux /dev/urandom with a signal pending: the read is cut at the next page boundary. Reads of at
+      // most one page are therefore never short; this is normal behaviour of the device, not a fault.
+      size_t k = n;
+      if (k > 4096) {
+        k = 4096;
+        c.short_reads_page++;
+        VS_FAULT("urandom_read_cut_at_page_by_signal");
+      }
+      uint8_t* p = (uint8_t*)buf;
+      for (size_t i = 0; i < k; i++) p[i] = urandom_byte(g_urandom_mode, g_urandom_seed, g_urandom_pos + i);
+      g_urandom_pos += k;
+      c.bytes_read += k;
+      vsim::ev("urandom.read.sig", n, k);
+      return k;
+    }
     if (act < 0 && n > 0) {
       if (act == -1) VS_FAULT("EIO@urandom");
       else VS_FAULT("EINTR@urandom");
